@@ -376,7 +376,7 @@ def run(prog: Program, chk: Check):
     def refusal_tests(f, exc="ValueError"):
         out_ = []
         for n in walk_local(f.node):
-            if isinstance(n, ast.If) and n.body and isinstance(n.body[-1], ast.Raise) and n.body[-1].exc is not None \
+            if isinstance(n, ast.If) and not n.orelse and n.body and isinstance(n.body[-1], ast.Raise) and n.body[-1].exc is not None \
                     and norm(n.body[-1].exc.func if isinstance(n.body[-1].exc, ast.Call) else n.body[-1].exc) == exc:
                 out_.append(n.test)
         return out_
@@ -406,6 +406,12 @@ def run(prog: Program, chk: Check):
         if len(t1) != 1 or len(tm) != 1:
             continue
         ep = element_pred(tm[0], many.params()[-1])
+        if ep is None:
+            # the explicit scan: `for v in value: if P(v): raise ValueError`
+            lp_ = next((a for a in _anc(tm[0]) if isinstance(a, ast.For)), None)
+            if lp_ is not None and path_of(lp_.iter) == many.params()[-1] and isinstance(lp_.target, ast.Name) and not lp_.orelse \
+                    and not any(isinstance(x, (ast.Break, ast.Continue, ast.Return)) for x in walk_local(lp_)):
+                ep = (lp_.target.id, tm[0])
         if ep is None:
             continue  # an order-statistic form (ints): decided by C09-Q
         ncmp += 1
